@@ -5,3 +5,4 @@ import ArimModel.Chunk
 import ArimModel.Frame
 import ArimModel.Config
 import ArimModel.Views
+import ArimModel.RayCache
